@@ -25,6 +25,17 @@ theorem leavesList_wrap (f : List Tree) (i id : Nat) (k : Syntax) :
     leavesList (f.take i ++ [.node id k (f.drop i)]) = leavesList f := by
   rw [leavesList_append, leavesList_singleton, leaves, ← leavesList_append, List.take_append_drop]
 
+mutual
+theorem text_eq_leaves : ∀ t : Tree, t.text = (leaves t).flatMap Token.text
+  | .tok _ _ _ => by simp [text, leaves]
+  | .node _ _ ks => by simp only [text, leaves]; exact textList_eq_leaves ks
+theorem textList_eq_leaves : ∀ ts : List Tree, textList ts = (leavesList ts).flatMap Token.text
+  | [] => by simp [textList, leavesList]
+  | t :: ts => by
+    simp only [textList, leavesList, List.flatMap_append]
+    rw [text_eq_leaves t, textList_eq_leaves ts]
+end
+
 end Tree
 
 namespace PLeaves
